@@ -1,0 +1,22 @@
+"""
+Hash command handler for Dippy.
+
+`hash` lists or forgets the remembered locations of commands.  `hash -p FILE NAME`
+makes NAME run FILE from then on, whatever PATH says.
+"""
+
+from __future__ import annotations
+
+from dippy.cli import Classification, HandlerContext
+
+COMMANDS = ["hash"]
+
+
+def classify(ctx: HandlerContext) -> Classification:
+    """Classify hash command."""
+    for token in ctx.tokens[1:]:
+        if token == "--" or not token.startswith("-"):
+            break
+        if "p" in token[1:]:
+            return Classification("ask", description="hash -p")
+    return Classification("allow")
